@@ -142,6 +142,14 @@ def all_flows(case, g=None, max_flows=None, tilings=True):
                 if order.index(x + ".1") > order.index(x + ".0"):
                     continue
                 flows.append({"order": list(order), "style": "and", "tile": {"rank": x, "step": step}})
+        # dynamic partitioning: boundaries from a list / from another fiber's coordinates
+        S = case["shapes"][x]
+        for _ in range(2):
+            sp = [0] + sorted(g.sample(range(1, S), g.randint(0, S - 1))) if S > 1 else [0]
+            idx2 = [j for i in idxs for j in ((x + ".1", x + ".0") if i == x else (i,))]
+            orders = [o for o in itertools.permutations(idx2) if o.index(x + ".1") < o.index(x + ".0")]
+            flows.append({"order": list(g.choice(orders)), "style": "and",
+                          "tile": {"rank": x, "splits": sp, "by": g.choice(["list", "fiber"])}})
     if max_flows is not None and g is not None and len(flows) > max_flows:
         flows = g.sample(flows, max_flows)
     return flows
@@ -154,11 +162,19 @@ def tiled(case, tensors, flow):
     tile = flow.get("tile")
     if not tile:
         return out, list(ops), shapes, dict(tensors)
-    x, step = tile["rank"], tile["step"]
+    x, step = tile["rank"], tile.get("step")
     ops2, t2 = [], {}
     for nm, idx in ops:
         if x in idx:
-            t2[nm] = tensors[nm].splitUniform(step, depth=idx.index(x))
+            if "splits" in tile:
+                # partition boundaries given as a list, or as the coordinates of a (leader) fiber of rank x
+                sp = list(tile["splits"])
+                if tile.get("by") == "fiber":
+                    sp = Fiber(sp, [1] * len(sp))
+                    sp.getRankAttrs().setId(x)
+                t2[nm] = tensors[nm].splitNonUniform(sp, depth=idx.index(x))
+            else:
+                t2[nm] = tensors[nm].splitUniform(step, depth=idx.index(x))
             nidx = tuple(j for i in idx for j in ((x + ".1", x + ".0") if i == x else (i,)))
         else:
             t2[nm] = tensors[nm]
